@@ -8,6 +8,7 @@ import SfntV.Model.CffWidths
 import SfntV.Model.CffEncoding
 import SfntV.Model.CffStrings
 import SfntV.Model.CffWrite
+import SfntV.Model.CffRead
 
 namespace SfntV.Drive.Cff
 open SfntV SfntV.Cff
@@ -81,19 +82,24 @@ def showStr (s : String) : String := showBlob s.toUTF8.toList
 
 def dashList (l : List String) : String := if l.isEmpty then "-" else ",".intercalate l
 
-def showPriv (p : Spec.PrivateInfo) : String :=
-  s!"{dashList (p.blueValues.map toString)}.{dashList (p.otherBlues.map toString)}.{p.blueShift}.{p.blueFuzz}.{if p.forceBold then 1 else 0}"
+def showPriv (full : Bool) (p : Spec.PrivateInfo) : String :=
+  s!"{dashList (p.blueValues.map toString)}.{dashList (p.otherBlues.map toString)}.{p.blueShift}.{p.blueFuzz}.{if p.forceBold then 1 else 0}" ++
+  (if full then s!".{showDec p.blueScale}.{showDec p.stdHW}.{showDec p.stdVW}" else "")
 
-def showFont (f : Spec.FontSummary) : String :=
+def showFont (f : Spec.FontSummary) (full : Bool := false) : String :=
   s!"name:{showBlob f.fontName};strs:{",".intercalate (f.strs.map showStr)};fixed:{if f.isFixedPitch then 1 else 0}" ++
   s!";ul:{showDec f.underlinePos},{showDec f.underlineThick};n:{f.nGlyphs}" ++
   (match f.ros with
    | some (r, o, sup) => s!";cs:{natsToString f.charset};names:-;ros:{showStr r},{showStr o},{sup}"
    | none => s!";cs:-;names:{dashList ((f.names.getD []).map showStr)};ros:-") ++
-  s!";fds:{natsToString f.fds};privs:{"/".intercalate (f.privs.map showPriv)};w:{",".intercalate (f.widths.map showDec)}" ++
+  s!";fds:{natsToString f.fds};privs:{"/".intercalate (f.privs.map (showPriv full))};w:{",".intercalate (f.widths.map showDec)}" ++
   (match f.encoding with
    | some e => s!";enc:{natsToString e}"
-   | none => "")
+   | none => "") ++
+  (if full then
+    s!";angle:{showDec f.italicAngle};fm:{",".intercalate (f.fontMatrix.map showDec)}" ++
+    (if f.ros.isSome then s!";fms:{"/".intercalate (f.fdMatrices.map fun m => ",".intercalate (m.map showDec))}" else "")
+   else "")
 
 @[noinline] def readFontWith (std : Array String) (b : Bytes) := Spec.readFont std b
 
@@ -129,11 +135,24 @@ def parseDecOperand (s : String) : Option Operand := do
     else pure (.real neg (m * 10 ^ (9 - ms.length)) ((ms.length : Int) + e))
   | _ => none
 
+/-- `[-]<m>e<exp>` as an exact decimal -/
+def parseRl (s : String) : Option Rl := do
+  let (neg, t) := if s.startsWith "-" then (true, (s.drop 1).toString) else (false, s)
+  match t.splitOn "e" with
+  | [ms, es] => pure (normReal neg (← ms.toNat?) (← es.toInt?))
+  | _ => none
+
+def parseRlList (s : String) : Option (List Rl) := (s.splitOn ",").mapM parseRl
+
 def parsePrivIn (s : String) : Option PrivIn :=
   match s.splitOn "." with
   | [bv, ob, bs, bf, fb] => do
     pure { blueValues := ← parseDashInts bv, otherBlues := ← parseDashInts ob, blueShift := ← bs.toInt?,
            blueFuzz := ← bf.toInt?, forceBold := fb == "1" }
+  | [bv, ob, bs, bf, fb, sc, hw, vw] => do
+    pure { blueValues := ← parseDashInts bv, otherBlues := ← parseDashInts ob, blueShift := ← bs.toInt?,
+           blueFuzz := ← bf.toInt?, forceBold := fb == "1", blueScale := ← parseRl sc, stdHW := ← parseRl hw,
+           stdVW := ← parseRl vw }
   | _ => none
 
 def parseFontIn (desc : String) (cs : List Bytes) (dw nw : Int) : Option FontIn := do
@@ -159,9 +178,57 @@ def parseFontIn (desc : String) (cs : List Bytes) (dw nw : Int) : Option FontIn 
          ros := ros, names := ← (get "names").bind parseDashStrs, cids := ← (get "cs").bind parseDashInts,
          enc := enc, fds := ← (get "fds").bind parseDashInts,
          privs := ← (get "privs").bind fun v => (v.splitOn "/").mapM parsePrivIn,
-         charStrings := cs, defWidth := dw, nomWidth := nw }
+         charStrings := cs, defWidth := dw, nomWidth := nw,
+         italicAngle := ← (match get "angle" with | some v => parseRl v | none => some Rl.zero),
+         fontMatrix := ← (match get "fm" with | some v => (parseRlList v).map some | none => some none),
+         fdMatrices := ← (match get "fms" with
+           | some v => (v.splitOn "/").mapM parseRlList
+           | none => some []) }
 
 @[noinline] def writeFontWith (std : List String) (f : FontIn) := writeFont std f
+
+/-! summary of a font delivered by the model of `cff.Read` (stream `cff.file.read`) -/
+
+def showRl (r : Rl) : String := s!"{if r.1 then "-" else ""}{r.2.1}e{r.2.2}"
+
+/-- nine significant digits (half away from zero), as `strconv.FormatFloat(x, 'e', 8, 64)` -/
+def round9 (r : Rl) : Rl :=
+  let d := numDigits r.2.1
+  if d ≤ 9 then r
+  else
+    let p := 10 ^ (d - 9)
+    let q := (r.2.1 + p / 2) / p
+    normReal r.1 q (r.2.2 + ((d - 9 : Nat) : Int))
+
+def tables : Tables :=
+  { std := Gen.cffStdStrings, isoAdobe := Gen.cff_isoAdobeCharset, expert := Gen.cff_expertCharset,
+    expertSubset := Gen.cff_expertSubsetCharset, expertEnc := Gen.cffExpertEnc,
+    standardEncRev := Gen.cffStandardEncRev }
+
+def showBStr (s : String) : String := showBlob (strToBlob s)
+
+def showPrivOut (p : PrivOut) : String :=
+  s!"{dashList (p.blueValues.map toString)}.{dashList (p.otherBlues.map toString)}.{showRl p.blueScale}" ++
+  s!".{p.blueShift}.{p.blueFuzz}.{showRl p.stdHW}.{showRl p.stdVW}.{if p.forceBold then 1 else 0}"
+
+def showFontOut (f : FontOut) (withW : Bool) : String :=
+  s!"name:{showBlob f.fontName};strs:{",".intercalate (f.strs.map showBStr)};fixed:{if f.isFixedPitch then 1 else 0}" ++
+  s!";angle:{if withW then showRl (round9 f.italicAngle) else "-"};ul:{showRl f.ulPos},{showRl f.ulThick}" ++
+  s!";fm:{",".intercalate (f.fontMatrix.map showRl)};n:{f.charStrings.length}" ++
+  (if f.isCID then
+    s!";kind:c;ros:{showBStr f.ros.1},{showBStr f.ros.2.1},{f.ros.2.2}" ++
+    s!";cids:{",".intercalate (f.charset.map fun c => toString (c % 4294967296))};fds:{natsToString f.fds}" ++
+    s!";fms:{"/".intercalate (f.fontMatrices.map fun m => ",".intercalate (m.map showRl))}"
+   else
+    s!";kind:s;names:{dashList (f.names.map showBStr)};enc:{natsToString f.encoding}") ++
+  s!";privs:{"/".intercalate (f.privs.map showPrivOut)}" ++
+  (if withW then
+    match f.widths with
+    | some ws => s!";w:{",".intercalate (ws.map showRl)}"
+    | none => ";w:opaque"
+   else "")
+
+@[noinline] def readFontModel (T : Tables) (b : Bytes) := SfntV.Cff.readFont T b
 
 def prefixes : List String := ["cff."]
 
@@ -280,6 +347,10 @@ def handle (op : String) (fs : List (String × String)) : String :=
         else showOutcome (fun r => toString r.2) (writeFontWith Gen.cffStdStrings.toList f)
       | none => "bad-case"
     | _, _, _, _ => "bad-case"
+  else if op == "cff.file.read" then
+    match (getField fs "file").bind fromHex with
+    | some d => showOutcome (fun f => showFontOut f (getField fs "w" == some "1")) (readFontModel tables d)
+    | none => "bad-case"
   else if op == "cff.file.rt" then
     -- the property: what was put in comes back; the expected summary is the description itself
     (getField fs "font").getD "bad-case"
@@ -287,7 +358,7 @@ def handle (op : String) (fs : List (String × String)) : String :=
     match (getField fs "file").bind fromHex with
     | some d =>
       match readFontWith Gen.cffStdStrings d with
-      | some f => showFont f
+      | some f => showFont f (decide ((((getField fs "want").getD "").splitOn ";angle:").length > 1))
       | none => "none"
     | none => "bad-case"
   else "bad-op"
